@@ -38,6 +38,10 @@ def nullable(e, aux):
         return True
     if k in ('where', 'apply', 'applyl'):
         return nullable(e[1], aux)
+    if k == 'sep':
+        return e[5]
+    if k == 'rep':
+        return not e[2] or nullable(e[1], aux)
     if k in ('opt', 'star', 'expect', 'expectnot', 'skip'):
         return True
     if k == 'plus':
